@@ -129,6 +129,15 @@ def assemble(template_path, unit, default_props):
             _emit_type(asm, out, kind, kv, maps, drops, adds)
             i += 1
             continue
+        if s.startswith('//@trace '):
+            block = []
+            i += 1
+            while i < len(tpl) and tpl[i].strip() != '//@end':
+                block.append(tpl[i].strip()[3:].strip())
+                i += 1
+            i += 1
+            _emit_trace(asm, out, unit, s, block, default_props)
+            continue
         if s.startswith('//@const '):
             kv = _parse_kv(s[9:])
             src = get_source(kv['file'])
@@ -200,6 +209,12 @@ def _emit_type(asm, out, kind, kv, maps, drops, adds=()):
         body = body.replace(a, b)
         asm.dropped.append('%s: field type %s mapped to stand-in %s' % (kv['name'], a, b))
     body = re.sub(r'pub\((crate|super)\)', 'pub', body)
+    if kind == 'struct' and kv.get('pubfields', '1') == '1':
+        # field visibility is irrelevant to the verified text (one module); make fields visible to specifications
+        body = re.sub(r'(\n\s*)(?:pub\s+)?(\w+\s*:)', r'\1pub \2', body)
+        body = re.sub(r'^(pub\s+)?struct', 'pub struct', body)
+    if kind == 'enum':
+        body = re.sub(r'^(pub\s+)?enum', 'pub enum', body)
     for f in adds:
         k = body.rstrip().rfind('}')
         body = body[:k] + '    %s,  // ghost field added by the contract (specification state, erased)\n' % f + body[k:]
@@ -218,12 +233,191 @@ def _emit_type(asm, out, kind, kv, maps, drops, adds=()):
                           'sha256': hashlib.sha256(txt.encode()).hexdigest(), 'props': []})
 
 
+
+MANAGED_PAT = re.compile(r'\bGc\s*<|\bValue\b|\bCallFrame\b|\bObjUpvalueState\b')
+
+
+def _fields_of(code_body):
+    """fields of a struct body text `{ a: T, pub b: U, }` -> [(name, type)]"""
+    inner = code_body[code_body.index('{') + 1:code_body.rindex('}')]
+    out = []
+    for part in rw._split_top(inner.replace('<', '(').replace('>', ')')):
+        pass
+    # split on top-level commas respecting <> nesting
+    depth = 0
+    cur = ''
+    parts = []
+    for ch in inner:
+        if ch in '<([{':
+            depth += 1
+        elif ch in '>)]}':
+            depth -= 1
+        if ch == ',' and depth == 0:
+            parts.append(cur)
+            cur = ''
+        else:
+            cur += ch
+    parts.append(cur)
+    for p_ in parts:
+        p_ = p_.strip()
+        if not p_:
+            continue
+        m = re.match(r'(?:pub(?:\([^)]*\))?\s+)?(\w+)\s*:\s*(.+)$', p_, re.S)
+        if m:
+            out.append((m.group(1), ' '.join(m.group(2).split())))
+    return out
+
+
+def _variants_of(code_body):
+    inner = code_body[code_body.index('{') + 1:code_body.rindex('}')]
+    depth = 0
+    cur = ''
+    parts = []
+    for ch in inner:
+        if ch in '<([{':
+            depth += 1
+        elif ch in '>)]}':
+            depth -= 1
+        if ch == ',' and depth == 0:
+            parts.append(cur)
+            cur = ''
+        else:
+            cur += ch
+    parts.append(cur)
+    out = []
+    for p_ in parts:
+        p_ = p_.strip()
+        if not p_:
+            continue
+        m = re.match(r'(\w+)\s*(?:\((.*)\))?$', p_, re.S)
+        if m:
+            out.append((m.group(1), ' '.join((m.group(2) or '').split())))
+    return out
+
+
+def _member_req(name, ty, specs, mode):
+    if name in specs:
+        return specs[name].replace('{m}', mode)
+    if ty.startswith('Option<'):
+        return 'opt_%s(self.%s)' % (mode, name)
+    return 'self.%s.%s()' % (name, mode)
+
+
+def _emit_trace(asm, out, unit, header, block, default_props):
+    """//@trace file=… type=T kind=struct|enum [impl="GcManaged for T"] [noemit=1]
+         exempt <field> <reason…>          (an explicit, reviewed exemption: listed as an assumption)
+         spec <field> <expr with {m}>      (override of the generated per-field requirement)
+         map "A" => "B"                    (field type stand-in)
+       Generates traced()/shaded() from the REAL item's field list and extracts mark/blacken verbatim."""
+    kv = _parse_kv(header.split(' ', 1)[1])
+    src = get_source(kv['file'])
+    tname = kv['type']
+    kind = kv.get('kind', 'struct')
+    it = src.find(tname, kind=kind)
+    code = _code_only(src.text_of(it))
+    exempt = {}
+    specs = {}
+    maps = []
+    rewrites = []
+    extra = []
+    also = []
+    for t in block:
+        if t.startswith('exempt '):
+            parts = t.split(None, 2)
+            exempt[parts[1]] = parts[2] if len(parts) > 2 else 'no reason given'
+        elif t.startswith('spec '):
+            parts = t.split(None, 2)
+            specs[parts[1]] = parts[2]
+        elif t.startswith('map '):
+            maps += re.findall(r'map\s+"([^"]*)"\s*=>\s*"([^"]*)"', t)
+        elif t.startswith('rewrite ') or t.startswith('subst '):
+            rewrites.append(t)
+        elif t.startswith('also '):
+            parts = t.split(None, 2)
+            also.append((parts[1], parts[2]))
+        elif t:
+            extra.append(t)
+    if not kv.get('noemit'):
+        _emit_type(asm, out, kind, {'file': kv['file'], 'name': tname}, maps, [], [])
+    kwpos = re.search(r'\b%s\b' % kind, code)
+    body = code[kwpos.start():]
+    members = _fields_of(body) if kind == 'struct' else _variants_of(body)
+    managed = []
+    for name, ty in members:
+        if not ty or not MANAGED_PAT.search(ty):
+            continue
+        if name in exempt:
+            asm.assumptions.append('C01 exemption: %s.%s (%s) need not be traced: %s' % (tname, name, ty, exempt[name]))
+            continue
+        if kv.get('exempt_interned', '1') == '1' and re.fullmatch(r'Gc\s*<\s*ObjString\s*>', ty):
+            asm.assumptions.append('C01 exemption: %s.%s is an interned string (rooted in the intern table for the interpreter\'s lifetime — C11 contract)' % (tname, name))
+            continue
+        managed.append((name, ty))
+    for name in exempt:
+        if name not in [n for n, _ in members]:
+            raise ExtractError("exemption names %s.%s which no longer exists" % (tname, name))
+    implname = kv.get('impl', 'GcManaged for %s' % tname)
+    impl_it = src.find('<%s>' % implname, kind='impl') if False else None
+    cands = [c for c in src.find_all(lambda c: c.kind == 'impl' and c.name.replace('memory::', '') == implname)]
+    if len(cands) != 1:
+        raise ExtractError("anchor lost: impl `%s` found %d times in %s" % (implname, len(cands), kv['file']))
+    impl_item = cands[0]
+    hdr = ' '.join(impl_item.header.split()).replace('memory::GcManaged', 'GcManaged').replace("'static + ", '').replace(" + ?Sized", '')
+    out.append('// ---- trace contract for %s: requirements generated from the real %s definition (%s:%d)' % (tname, kind, kv['file'], src.line_of(it.start)))
+    out.append(hdr + ' {')
+    for mode in ('traced', 'shaded'):
+        if kind == 'struct':
+            conj = []
+            for name, ty in managed:
+                conj.append(_member_req(name, ty, specs, mode))
+            expr = ' && '.join(conj) if conj else 'true'
+            out.append('    open spec fn %s(&self) -> bool { %s }' % (mode, expr))
+        else:
+            arms = []
+            for name, ty in members:
+                if (name, ty) in managed:
+                    arms.append('%s::%s(inner) => inner.%s(),' % (tname, name, mode))
+            arms.append('_ => true,')
+            out.append('    open spec fn %s(&self) -> bool { match self { %s } }' % (mode, ' '.join(arms)))
+    props = kv.get('props', ','.join(default_props)).split(',')
+    for meth, mode in (('mark', 'traced'), ('blacken', 'shaded')):
+        blk = []
+        for t in rewrites:
+            blk.append(t)
+        for name, ty in managed:
+            if kind == 'struct':
+                cl = _member_req(name, ty, specs, mode)
+            else:
+                cl = '(self is %s) ==> self.%s()' % (name, mode)
+            blk.append('ensures @%s %s' % (name, cl))
+        for (nm, ex) in also:
+            blk.append('ensures @%s %s' % (nm, ex.replace('{m}', mode)))
+        for t in extra:
+            m_ = re.match(r'(mark|blacken|both):\s*(.*)', t)
+            if not m_:
+                raise ExtractError("unknown trace directive for %s: %s" % (tname, t))
+            if m_.group(1) in (meth, 'both'):
+                blk.append(m_.group(2).replace('{m}', mode))
+        n_before = len(asm.obligations)
+        _emit_fn(asm, out, unit, {'file': kv['file'], 'path': '<%s>::%s' % (implname, meth), 'props': ','.join(props),
+                                  'obname': '%s::%s' % (tname, meth), 'optional_rewrites': '1'}, blk, default_props)
+        for o in asm.obligations[n_before:]:
+            mm = re.search(r'/@([\w.]+)$', o.name)
+            if mm:
+                o.name = '%s/%s::%s/%s' % (unit, tname, meth, mm.group(1))
+                o.trace = {'type': tname, 'method': meth, 'member': mm.group(1)}
+                o.text = '%s of %s covers %s: %s' % (meth, tname, mm.group(1), o.text)
+    out.append('}')
+    asm.trace_types = getattr(asm, 'trace_types', {})
+    asm.trace_types[tname] = {'members': members, 'managed': managed}
+
+
 def _emit_fn(asm, out, unit, kv, block, default_props):
     src = get_source(kv['file'])
     it = src.find(kv['path'], kind='fn')
     ft = rsx.FnText(src, it)
     props = kv.get('props', ','.join(default_props)).split(',')
-    fname = kv['path']
+    fname = kv.get('obname', kv['path'])
     sig = ft.sig
     body = ft.body
     quals = ft.qualifiers()
@@ -240,6 +434,8 @@ def _emit_fn(asm, out, unit, kv, block, default_props):
             for rule in t.split()[1:]:
                 sig2, body2, n = rw.apply(rule, sig, body)
                 if n == 0:
+                    if kv.get('optional_rewrites'):
+                        continue
                     raise ExtractError("rewrite rule %s no longer matches in %s" % (rule, fname))
                 sig, body = sig2, body2
                 asm.rewrites.append((rule, fname, n))
@@ -259,7 +455,12 @@ def _emit_fn(asm, out, unit, kv, block, default_props):
         elif t.startswith('requires '):
             requires.append(t[9:].strip())
         elif t.startswith('ensures '):
-            ensures.append(t[8:].strip())
+            e_ = t[8:].strip()
+            m_ = re.match(r'@([\w.]+)\s+(.*)', e_)
+            if m_:
+                ensures.append((m_.group(1), m_.group(2)))
+            else:
+                ensures.append(e_)
         elif t.startswith('attr '):
             attrs.append(t[5:].strip())
         elif t.startswith('loop '):
@@ -401,7 +602,11 @@ def _emit_fn(asm, out, unit, kv, block, default_props):
     if ensures:
         hdr_lines.append('        ensures')
         for k, e in enumerate(ensures, 1):
-            name = '%s/%s/post#%d' % (unit, fname, k)
+            if isinstance(e, tuple):
+                name = '%s/%s/@%s' % (unit, fname, e[0])
+                e = e[1]
+            else:
+                name = '%s/%s/post#%d' % (unit, fname, k)
             o = Obligation(name, 'post', props, fname, e)
             obs_local.append(o)
             hdr_lines.append('            %s, %s' % (e.rstrip(','), marker(name)))
@@ -518,9 +723,12 @@ def classify(asm, res, canary_name):
             hit = [o for o in asm.obligations if o.lines and (set(o.lines) & lines)]
         if not hit:
             # attribute to the body obligation of the enclosing extracted function, else to a lemma
-            for (a, b, fname, body_ob) in asm.fn_ranges:
-                if any(a <= l <= b for l in (plines or lines)):
-                    hit = [body_ob]
+            for cand in (plines, lines):
+                for (a, b, fname, body_ob) in asm.fn_ranges:
+                    if any(a <= l <= b for l in cand):
+                        hit = [body_ob]
+                        break
+                if hit:
                     break
         if not hit:
             # hand-written lemma / spec: find a lemma obligation whose fn name appears in the spans
